@@ -1,7 +1,7 @@
 """One function per property: selects engines and workloads, aggregates, writes evidence."""
 import time
 
-from . import c16, c17, core, sets, vec
+from . import c16, c17, c20, core, sets, vec
 
 ASSUME_SAN = ["ASan/UBSan/LSan red zones: an overrun that lands inside another live object is only seen through the value/ledger oracles",
               "harness element types and allocators (harness/mon) are correct", "g++ 12 / libstdc++ std::vector and std::set as reference models"]
@@ -302,6 +302,14 @@ def c14(tier):
     return core.finish("C14", tier, "exploration", cov, viols, inc, t0, ASSUME_SAN, min_evals=1000)
 
 
+def c20_check(tier):
+    t0 = time.time()
+    cov, viols, inc = c20.run(tier)
+    return core.finish("C20", tier, "exploration", cov, viols, inc, t0,
+                       ["ThreadSanitizer samples schedules; a race needing an interleaving never produced is missed", "positive control must fire, otherwise inconclusive"],
+                       min_evals=1000)
+
+
 def all_quick_specs():
     cfgs = (list(vec.QUICK) + sets.FS_QUICK + sets.SS_SPACE_QUICK + sets.SS_HIST_QUICK + sets.HG_QUICK + sets.COST_QUICK + vec.GROWTH_QUICK +
             vec.ALIAS_QUICK + vec.LIMITS_QUICK + vec.FAULT_QUICK + sets.SETFAULT_QUICK + vec.SWAP2_QUICK + sets.ALGO_QUICK)
@@ -318,6 +326,6 @@ def setup():
     return 0
 
 
-EXTRA_SETUP = [lambda: [c16.spec(b) for b in c16.matrix("quick")]]
+EXTRA_SETUP = [lambda: [c16.spec(b) for b in c16.matrix("quick")], lambda: [c20.spec()]]
 
-CHECKS = {"C01": c01, "C02": c02, "C05": c05, "C06": c06, "C07": c07, "C03": c03, "C04": c04, "C11": c11, "C12": c12, "C19": c19, "C18": c18, "C10": c10, "C08": c08, "C09": c09, "C13": c13, "C15": c15, "C16": c16_check, "C17": c17_check, "C14": c14}
+CHECKS = {"C01": c01, "C02": c02, "C05": c05, "C06": c06, "C07": c07, "C03": c03, "C04": c04, "C11": c11, "C12": c12, "C19": c19, "C18": c18, "C10": c10, "C08": c08, "C09": c09, "C13": c13, "C15": c15, "C16": c16_check, "C17": c17_check, "C14": c14, "C20": c20_check}
